@@ -3,6 +3,7 @@
 //   idx    <lay> <ct> N s1..sN | c1..cN   -> flat index recorded by the probe backend beneath field_view::at
 //   ident  <lay> N s1..sN | c1..cN        -> value returned by <lay><sizeN, identity<size1>> (the flat position)
 //   static <lay> N s1..sN | c1..cN        -> the static calculate_index of the Morton / Hilbert layer
+//   convpos <lay> N s1..sN | c1..cN       -> "<storage position of that coordinate after a converting construction> <matches>"
 //   alloc  <lay> N s1..sN                 -> storage length allocated when converting a row-major field
 #include <covfie/core/backend/primitive/array.hpp>
 #include <covfie/core/backend/primitive/identity.hpp>
@@ -11,6 +12,8 @@
 #include <covfie/core/backend/transformer/strided.hpp>
 #include <covfie/core/field.hpp>
 #include "probe.hpp"
+#include <covfie/core/utility/numeric.hpp>
+#include <algorithm>
 #include <iostream>
 #include <sstream>
 #include <string>
@@ -80,6 +83,34 @@ std::string run_alloc(const std::vector<u64> & sz) {
   field<LA> dst(src);
   return std::to_string(dst.backend().get_backend().get_configuration()[0]);
 }
+// where does the library's converting constructor put coordinate `co`? (storage position observed directly, not through at())
+template <int L, std::size_t N>
+std::string run_convpos(const std::vector<u64> & sz, const std::vector<u64> & co) {
+  using V = vector::vector_d<std::size_t, N>;
+  using A = backend::array<vector::float1>;
+  using SA = backend::strided<V, A>;
+  using MA = backend::morton<V, A, false>;
+  using SRC = std::conditional_t<L == 0, MA, SA>;
+  using LA = typename layer<L, V, A>::type;
+  u64 total = 1, mx = 1; for (auto s : sz) { total *= s; mx = std::max<u64>(mx, s); }
+  typename SA::configuration_t scfg; for (std::size_t k = 0; k < N; ++k) scfg[k] = sz[k];
+  field<SRC> src(make_parameter_pack(std::move(scfg), typename A::configuration_t{
+      L == 0 ? utility::ipow<u64>(utility::round_pow2<u64>(mx), N) : total}));
+  typename field<SRC>::view_t sv(src);
+  std::vector<u64> c(N, 0); float want = 0;
+  for (u64 k = 0; k < total; ++k) {
+    typename field<SRC>::coordinate_t cc; for (std::size_t d = 0; d < N; ++d) cc[d] = c[d];
+    sv.at(cc)[0] = static_cast<float>(k + 1);
+    if (c == co) want = static_cast<float>(k + 1);
+    for (std::size_t d = N; d-- > 0;) { if (++c[d] < sz[d]) break; c[d] = 0; }
+  }
+  field<LA> dst(src);
+  const auto & arr = dst.backend().get_backend();
+  typename A::non_owning_data_t raw(arr);
+  u64 len = arr.get_configuration()[0], pos = 0, cnt = 0;
+  for (u64 p = 0; p < len; ++p) if (raw.at(p)[0] == want) { if (!cnt) pos = p; ++cnt; }
+  return std::to_string(pos) + " " + std::to_string(cnt);
+}
 template <int L, typename C>
 std::string idxN(std::size_t N, const std::vector<u64> & sz, const std::vector<u64> & co) {
   if constexpr (L == 3) { if (N == 2) return run_idx<L, C, 2>(sz, co); return "unsupported"; }
@@ -101,7 +132,8 @@ std::string otherN(const std::string & op, std::size_t N, const std::vector<u64>
 #define DISPATCH(NN) \
   if (op == "ident") return run_ident<L, NN>(sz, co); \
   if (op == "static") return run_static<L, NN>(sz, co); \
-  if (op == "alloc") return run_alloc<L, NN>(sz);
+  if (op == "alloc") return run_alloc<L, NN>(sz); \
+  if (op == "convpos") return run_convpos<L, NN>(sz, co);
   if constexpr (L == 3) { if (N == 2) { DISPATCH(2) } return "unsupported"; }
   else {
     switch (N) { case 1: { DISPATCH(1) break; } case 2: { DISPATCH(2) break; } case 3: { DISPATCH(3) break; } case 4: { DISPATCH(4) break; } }
